@@ -251,6 +251,19 @@ func scEscrow() Scenario {
 		aSendToEscrow("B", 1),
 		aDepositDenom("T1", 1, 3, denom2), aCreateBidDenom(bidRef{"T1", 1, 2, 1, "P1"}, 2, 5, denom2),
 	)
+	// negative amounts (a coin decoded from the wire may carry one; sdk.NewCoin would panic, a struct literal does not)
+	neg := func(n int64) sdk.Coin { return sdk.Coin{Denom: denom, Amount: sdk.NewInt(n)} }
+	al = append(al,
+		Action{Name: "Deposit(T1,1,-3)", Kind: "DepositDeployment", Signer: "T1", Tag: tag("owner", "T1", "dseq", "1"),
+			Msg: func(c *Cast) sdk.Msg {
+				return &dtypes.MsgDepositDeployment{ID: dtypes.DeploymentID{Owner: c.S("T1"), DSeq: 1}, Amount: neg(-3)}
+			}},
+		aCreateBidRaw("CreateBid(T1,1,2,1,P1,price=-2,dep=5)", bidRef{"T1", 1, 2, 1, "P1"}, func(c *Cast) string { return c.S("P1") }, neg(-2), 5),
+		Action{Name: "CreateBid(T1,1,2,1,P1,price=2,dep=-5)", Kind: "CreateBid", Signer: "P1", Tag: bidRef{"T1", 1, 2, 1, "P1"}.tags(),
+			Msg: func(c *Cast) sdk.Msg {
+				return &mtypes.MsgCreateBid{Order: bidRef{"T1", 1, 2, 1, "P1"}.id(c).OrderID(), Provider: c.S("P1"), Price: coin(2), Deposit: neg(-5)}
+			}},
+	)
 	// the same tenant spelling its address in upper-case bech32 (must be refused: ids are keyed by the owner string)
 	al = append(al, aCreateDeployment("T1^", 7, 1, 3, 10, noReq), aCloseDeployment("T1^", 7))
 	al = append(al, bidOps(bidRef{"T1^", 7, 1, 1, "P1"}, 2, false)...)
